@@ -333,9 +333,9 @@ Proof.
   specialize (H t Ht). unfold task_over8, over8. exact H.
 Qed.
 
-Lemma e1102_ok d : k7_over8 d = false -> k8_empty_demand_vectors d = false -> check_e1102 d = Some (viol_1102 d).
+Lemma e1102_ok d : k7_over8 d = false -> check_e1102 d = Some (viol_1102 d).
 Proof.
-  intros H7 H8. unfold check_e1102.
+  intros H7. unfold check_e1102.
   assert (Hp : existsb e1102_job_panics (d_jobs d) = false).
   { apply existsb_false. intros j Hj. unfold e1102_job_panics.
     assert (He : existsb task_over8 (olist (j_pickups j) ++ olist (j_deliveries j)) = false).
@@ -344,17 +344,14 @@ Proof.
   rewrite Hp. f_equal. unfold viol_1102. apply existsb_ext_in. intros j Hj. unfold e1102_job.
   assert (Hh : forall o, has_tasks o = nonempty (tasks o)) by (intros [[|? ?]|]; reflexivity).
   rewrite !Hh. destruct (nonempty (tasks (j_pickups j)) && nonempty (tasks (j_deliveries j))) eqn:Hboth; [|reflexivity].
-  cbn [andb]. unfold k8_empty_demand_vectors in H8. rewrite existsb_false in H8. specialize (H8 j Hj). cbn beta in H8.
-  rewrite Hboth in H8. cbn [andb] in H8.
+  cbn [andb].
   set (P := get_demand (j_pickups j)) in *. set (D := get_demand (j_deliveries j)) in *.
   assert (Hlen : List.length (vsub P D) = max_len (tasks (j_pickups j) ++ tasks (j_deliveries j))).
   { unfold vsub. rewrite vzip_length. subst P D. rewrite !get_demand_len, max_len_app. reflexivity. }
-  assert (Hpos := max_len_pos _ H8).
   assert (Hle : (List.length (vsub P D) <= 8)%nat).
   { rewrite Hlen. apply max_len_le; [|reflexivity]. intros t Ht. apply (k7_jobs d H7 j Hj).
     unfold all_tasks. rewrite app_assoc. apply in_or_app. now left. }
-  unfold load_ne_default. replace (List.length (vsub P D) =? 0)%nat with false by (symmetry; apply Nat.eqb_neq; lia).
-  cbn [orb]. rewrite (existsb_nonzero_nth _ 8 Hle). apply existsb_ext_in. intros i _.
+  unfold load_ne_default. rewrite (existsb_nonzero_nth _ 8 Hle). apply existsb_ext_in. intros i _.
   unfold vsub. rewrite vzip_nth by reflexivity. subst P D. rewrite !get_demand_nth.
   destruct (Z.eqb_spec (dim_sum i (tasks (j_pickups j)) - dim_sum i (tasks (j_deliveries j))) 0),
            (Z.eqb_spec (dim_sum i (tasks (j_pickups j))) (dim_sum i (tasks (j_deliveries j)))); cbn; try reflexivity; lia.
@@ -550,8 +547,7 @@ Definition spec_result (d : doc) : vres :=
   match filter (fun c => violates c d) (map fst all_checks) with [] => VOk | cs => VErr cs end.
 
 Lemma known_false d : known d = false ->
-  k6_capacity_empty d = false /\ k7_over8 d = false /\ k8_empty_demand_vectors d = false /\ k9_no_vehicles d = false
-  /\ g2_required_breaks_of d = false.
+  k7_over8 d = false /\ k9_no_vehicles d = false /\ g2_required_breaks_of d = false.
 Proof.
   unfold known, known_table. cbn [existsb snd]. intros H.
   repeat (apply orb_false_iff in H; destruct H as [? H]). repeat split; assumption.
@@ -559,7 +555,7 @@ Qed.
 
 Lemma checks_agree d : known d = false -> forall c f, In (c, f) all_checks -> f d = Some (violates c d).
 Proof.
-  intros Hk c f Hin. destruct (known_false d Hk) as (H6 & H7 & H8 & H9 & _).
+  intros Hk c f Hin. destruct (known_false d Hk) as (H7 & H9 & _).
   unfold all_checks, jobs_checks, vehicles_checks, routing_checks in Hin. cbn [app In] in Hin.
   repeat (destruct Hin as [Hin|Hin]; [inversion Hin; subst c f; clear Hin|]); [..|contradiction].
   - change (violates 1100 d) with (viol_1100 d). apply e1100_ok.
@@ -671,14 +667,13 @@ Section Safe.
 
   Lemma fleet_safe : fleet_panics d = false.
   Proof.
-    destruct (known_false d Hk) as (H6 & H7 & _ & H9 & _).
+    destruct (known_false d Hk) as (H7 & H9 & _).
     unfold fleet_panics. apply orb_false_iff. split; [apply orb_false_iff; split|].
     - exact H1505.
     - apply existsb_false. intros v Hin. apply existsb_false. intros s Hs.
       destruct (shifts_parse v Hin) as [_ Hp]. destruct (Hp s Hs) as (He & Hend & Hlat). rewrite He, Hend, Hlat. cbn [orb].
-      unfold k6_capacity_empty in H6. rewrite existsb_false in H6. specialize (H6 v Hin). cbn beta in H6.
       unfold k7_over8 in H7. apply orb_false_iff in H7. destruct H7 as [H7 _]. rewrite existsb_false in H7.
-      specialize (H7 v Hin). cbn beta in H7. unfold over8. rewrite H7, H6. now destruct (has_multi_dimen_capacity d), (v_ids v).
+      specialize (H7 v Hin). cbn beta in H7. unfold over8. rewrite H7. now destruct (has_multi_dimen_capacity d), (v_ids v).
     - destruct (forallb _ (d_vehicles d)) eqn:E; [exfalso|reflexivity]. rewrite forallb_forall in E.
       unfold k9_no_vehicles in H9. destruct (forallb_false_exists _ _ H9) as (v & Hin & Hids).
       specialize (E v Hin). destruct (shifts_parse v Hin) as [Hne _].
@@ -714,7 +709,7 @@ Section Safe.
 
   Lemma jobs_safe : jobs_panic d = false.
   Proof.
-    destruct (known_false d Hk) as (_ & H7 & _).
+    destruct (known_false d Hk) as (H7 & _).
     unfold jobs_panic. apply existsb_false. intros j Hj. apply existsb_false. intros t Ht.
     rewrite (k7_jobs d H7 j Hj t Ht). cbn [orb]. apply existsb_false. intros p Hp.
     unfold viol_1103 in H1103. rewrite existsb_false in H1103. specialize (H1103 j Hj). cbn beta in H1103.
@@ -788,21 +783,21 @@ Proof.
   rewrite existsb_false in H. now apply spans_fail_g2, H.
 Qed.
 Lemma reserved_ok_known d : known d = false -> reserved_fails d = false.
-Proof. intros Hk. destruct (known_false d Hk) as (_ & _ & _ & _ & G2). now apply reserved_ok_base. Qed.
+Proof. intros Hk. destruct (known_false d Hk) as (_ & _ & G2). now apply reserved_ok_base. Qed.
 (* the reader of a validated base document outside the known classes goes through *)
 Lemma read_tail_ok d : known d = false -> (forall c, In c (map fst all_checks) -> violates c d = false) ->
   (if fleet_panics d || reserved_times_panic d then RPanic
    else if reserved_fails d then RErr [2]
    else if jobs_panic d || conditional_panic d then RPanic else ROk) = ROk.
 Proof.
-  intros Hk Hv. destruct (known_false d Hk) as (_ & _ & _ & _ & G2).
+  intros Hk Hv. destruct (known_false d Hk) as (_ & _ & G2).
   now rewrite (fleet_safe d Hk Hv), (reserved_safe d Hv), (reserved_ok_base d G2), (jobs_safe d Hk Hv), (conditional_safe d Hv).
 Qed.
 
 (* ---------- the three clauses of the property, outside the known classes ---------- *)
 (* since 11fbd19 the step in front of validation cannot panic on a reduced document (no explicit speeds) *)
 Lemma approx_ok d : approx_panics d = false.
-Proof. unfold approx_panics, pre_validation_panics. cbn [existsb]. apply andb_false_r. Qed.
+Proof. reflexivity. Qed.
 
 Lemma read_total_l d : known d = false -> read d <> RPanic.
 Proof.
@@ -850,21 +845,13 @@ Qed.
 
 (* ---------- the step before validation when no matrix is supplied ---------- *)
 Lemma prevalidation_l :
-  (forall profiles speeds, pre_validation_panics true profiles speeds = false)
-  /\ (forall has_indices speeds, pre_validation_panics has_indices [] speeds = false)
-  /\ (forall has_indices profiles speeds, (forall s, In s speeds -> 0 < s) -> pre_validation_panics has_indices profiles speeds = false)
-  /\ (forall profiles speeds, pre_validation_panics false profiles speeds = true <-> profiles <> [] /\ exists s, In s speeds /\ s <= 0)
+  (forall has_indices profiles speeds, pre_validation_panics has_indices profiles speeds = false)
+  /\ (forall profiles speeds, approx_skipped profiles speeds = true <-> profiles = [] \/ exists s, In s speeds /\ s <= 0)
   /\ (forall d, approx_panics d = false).
 Proof.
-  split; [reflexivity|split; [|split; [|split]]].
-  - intros has_indices speeds. unfold pre_validation_panics. cbn [is_nil negb]. now rewrite andb_false_r.
-  - intros has_indices profiles speeds Hs. unfold pre_validation_panics.
-    assert (He : existsb (fun s => s <=? 0) speeds = false) by (apply existsb_false; intros s Hin; apply Z.leb_gt; now apply Hs).
-    rewrite He. apply andb_false_r.
-  - intros profiles speeds. unfold pre_validation_panics. cbn [negb andb]. rewrite andb_true_iff, existsb_exists. split.
-    + intros [Hp (s & Hin & Hs)]. split; [destruct profiles; [discriminate|congruence]|]. exists s. split; [exact Hin|now apply Z.leb_le].
-    + intros [Hp (s & Hin & Hs)]. split; [destruct profiles; [congruence|reflexivity]|]. exists s. split; [exact Hin|now apply Z.leb_le].
-  - exact approx_ok.
+  split; [reflexivity|split; [|reflexivity]]. intros profiles speeds. unfold approx_skipped. rewrite orb_true_iff, existsb_exists. split.
+  - intros [H|(s & Hin & Hs)]; [left; now destruct profiles|right; exists s; split; [exact Hin|now apply Z.leb_le]].
+  - intros [->|(s & Hin & Hs)]; [now left|right; exists s; split; [exact Hin|now apply Z.leb_le]].
 Qed.
 
 (* ---------- create_transport_costs: the errorCodes loop ---------- *)
@@ -993,12 +980,13 @@ Lemma fixed_regression2_l :
   /\ known w_k5 = false /\ validate w_k5 = VErr [1303] /\ read w_k5 = RErr [1303]
   /\ known w_k10 = false /\ violates 1501 w_k10 = true /\ read w_k10 = RErr [1501; 1505].
 Proof. repeat split; vm_compute; reflexivity. Qed.
-Lemma k6_witness : k6_capacity_empty w_k6 = true /\ breaks_no_rule w_k6 /\ validate w_k6 = VOk /\ read w_k6 = RPanic.
-Proof. split; [|split; [apply breaks_no_rule_dec|split]]; vm_compute; reflexivity. Qed.
+(* K6 (capacity []), K8 (E1102 on empty demand vectors) were repaired in /repo: their former witnesses are outside `known` and accepted *)
+Lemma fixed_regression3_l : k6_capacity_empty w_k6 = true /\ known w_k6 = false /\ breaks_no_rule w_k6 /\ read w_k6 = ROk
+  /\ k8_empty_demand_vectors w_k8 = true /\ known w_k8 = false /\ violates 1102 w_k8 = false /\ read w_k8 = ROk.
+Proof. repeat split; try (apply breaks_no_rule_dec); vm_compute; reflexivity. Qed.
 Lemma k7_witness : k7_over8 w_k7 = true /\ breaks_no_rule w_k7 /\ validate w_k7 = VOk /\ read w_k7 = RPanic.
 Proof. split; [|split; [apply breaks_no_rule_dec|split]]; vm_compute; reflexivity. Qed.
-Lemma k8_witness : k8_empty_demand_vectors w_k8 = true /\ read w_k8 = RErr [1102] /\ violates 1102 w_k8 = false.
-Proof. repeat split; vm_compute; reflexivity. Qed.
+
 Lemma g2_witness_base : g2_required_breaks_of w_g2 = true /\ breaks_no_rule w_g2 /\ validate w_g2 = VOk /\ read w_g2 = RErr [2].
 Proof. split; [|split; [apply breaks_no_rule_dec|split]]; vm_compute; reflexivity. Qed.
 Lemma k9_witness : k9_no_vehicles w_k9 = true /\ breaks_no_rule w_k9 /\ validate w_k9 = VOk /\ read w_k9 = RPanic.
